@@ -1,7 +1,7 @@
 (* C26, second part: property-level statements about the request (Props/C26.v restates them). *)
 From Coq Require Import ZArith Lia List.
 From ApolloVerif Require Import Base.Chars Ast.Ast Schema.Model Run.Json Run.JsonLemmas Run.Coerce Run.CoerceProofs
-  Run.TypedDoc Run.Prog Run.Execute Run.ExecTop Run.RefExecute Run.ExecKnown Run.ExecProofs Run.ExecRefDefs
+  Run.TypedDoc Run.Prog Run.Execute Run.ExecTop Run.RefExecute Run.ExecProofs Run.ExecRefDefs
   Run.ExecRefInv Run.ExecRefFuel Run.ExecRefCollect Run.ExecRefTyping Run.ExecRefProp Run.ExecRefSim Run.ExecRefFuelRef
   Run.ExecRefNull Run.ExecTheorems.
 Import ListNotations.
@@ -21,7 +21,8 @@ Qed.
 
 Lemma sch_exec_wf_string s : sch_exec_wf s = true -> sch_has_string s.
 Proof.
-  unfold sch_exec_wf, sch_has_string. intros H. apply andb_true_iff in H. destruct H as [_ H].
+  unfold sch_exec_wf, sch_has_string. intros H. apply andb_true_iff in H. destruct H as [H _].
+  apply andb_true_iff in H. destruct H as [_ H].
   destruct (sch_get_type s td_String) as [t|]; [|discriminate]. destruct t; try discriminate. repeat eexists.
 Qed.
 
@@ -38,20 +39,21 @@ Proof.
     unfold ex_type_applies. rewrite Hty. apply streq_refl.
 Qed.
 
-Lemma fuel_bound d :
-  (rd_max rsl_depth d + length (rd_frags d) * rd_max rsl_depth d) * (2 * rd_max rsl_max_ty d + 8) + 1 <= ex_fuel_for d.
+Lemma fuel_bound s d :
+  (rd_max rsl_depth d + length (rd_frags d) * rd_max rsl_depth d) * (2 * ex_ty_max s d + 8) + 1 <= ex_fuel_for s d.
 Proof.
-  unfold ex_fuel_for. set (D := rd_max rsl_depth d). set (K := length (rd_frags d)). set (M := rd_max rsl_max_ty d). nia.
+  unfold ex_fuel_for. set (D := rd_max rsl_depth d). set (K := length (rd_frags d)). set (M := ex_ty_max s d). nia.
 Qed.
 
 (* C26_eq_reference: the response of the executor model is the response of the reference executor *)
 Lemma c26_eq_reference : forall s doc values w d vars root impls,
   execute_prepare s doc values = EpReady d vars root impls ->
-  sch_exec_wf s = true -> known_covariant s d = false -> rd_mergeable s d -> rd_acyclic d = true ->
+  sch_exec_wf s = true -> rd_mergeable s d -> rd_acyclic d = true ->
   fst (execute_request s doc values w) = ref_execute s doc values w.
 Proof.
-  intros s doc values w d vars root impls Hp Hwf Hcov Hmg Hacyc.
+  intros s doc values w d vars root impls Hp Hwf Hmg Hacyc.
   destruct (sch_exec_wf_spec s Hwf) as [Hu Hm]. pose proof (sch_exec_wf_string s Hwf) as Hstr.
+  pose proof (sch_exec_wf_cov s Hwf) as Hcv.
   destruct (root_typed _ _ _ _ _ _ _ Hp) as [Hroot Hfr]. destruct (prepare_inv _ _ _ _ _ _ _ Hp) as (_ & _ & Hg).
   unfold execute_request, ref_execute. rewrite Hp.
   pose proof (execute_prog_nofuel s d vars w root impls Hacyc []) as Hnf.
@@ -62,13 +64,13 @@ Proof.
   set (e := {| rf_s := s; rf_frags := rd_frags d; rf_vars := vars; rf_w := w; rf_cx := ex_cx_for s d vars |}).
   unfold rf_fuel_for.
   (* the reference does not run out of fuel *)
-  destruct (ref_fuel_all s d vars w Hu Hm Hcov Hfr (ex_fuel_for d)) as (Hrs & _).
-  pose proof (Hrs root impls 0%N (rd_sels d) _ Hg (root_sels_ok d Hacyc) Hroot Hmg (fuel_bound d)) as Hoof.
+  destruct (ref_fuel_all s d vars w Hu Hm Hcv Hfr (ex_fuel_for s d)) as (Hrs & _).
+  pose proof (Hrs root impls 0%N (rd_sels d) _ Hg (root_sels_ok s d Hacyc) Hroot Hmg (fuel_bound s d)) as Hoof.
   fold e in Hoof. rewrite rt_oof_obj, Hoof.
   (* both agree *)
-  destruct (sim_all s d vars w Hu Hm Hstr Hcov Hfr (ex_fuel_for d)) as (Hss & _).
-  destruct (Hss (ex_fuel_for d) [] root impls 0%N (rd_sels d) [] [] res st log Hg Hroot Hmg E Hnf Hoof) as [A1 A2].
-  fold e in A1, A2. rewrite rf_prop_obj. destruct (rfp_fields [] (rf_selset (ex_fuel_for d) e root 0 (rd_sels d)) []) as [r es].
+  destruct (sim_all s d vars w Hu Hm Hstr Hcv Hfr (ex_fuel_for s d)) as (Hss & _).
+  destruct (Hss (ex_fuel_for s d) [] root impls 0%N (rd_sels d) [] [] res st log Hg Hroot Hmg E Hnf Hoof) as [A1 A2].
+  fold e in A1, A2. rewrite rf_prop_obj. destruct (rfp_fields [] (rf_selset (ex_fuel_for s d) e root 0 (rd_sels d)) []) as [r es].
   cbn [fst snd] in A1, A2. subst r st. rewrite app_nil_r.
   destruct res as [m| |]; cbn [xr_opt ex_outcome]; [| |contradiction]; now rewrite rev_involutive.
 Qed.
@@ -76,38 +78,38 @@ Qed.
 (* the decidable sufficient condition for rd_mergeable *)
 Lemma alias_consistent_mergeable s d : rd_alias_consistent d = true -> rd_acyclic d = true -> rd_mergeable s d.
 Proof.
-  intros Ha Hacyc. destruct (root_sels_ok d Hacyc) as [_ H]. exact (alias_mergeable s d Ha _ _ H).
+  intros Ha Hacyc. destruct (root_sels_ok s d Hacyc) as [_ H]. exact (alias_mergeable s d Ha _ _ H).
 Qed.
 
 Lemma c26_eq_reference_alias : forall s doc values w d vars root impls,
   execute_prepare s doc values = EpReady d vars root impls ->
-  sch_exec_wf s = true -> known_covariant s d = false -> rd_alias_consistent d = true -> rd_acyclic d = true ->
+  sch_exec_wf s = true -> rd_alias_consistent d = true -> rd_acyclic d = true ->
   fst (execute_request s doc values w) = ref_execute s doc values w.
 Proof.
-  intros s doc values w d vars root impls Hp Hwf Hcov Halias Hacyc.
+  intros s doc values w d vars root impls Hp Hwf Halias Hacyc.
   eapply c26_eq_reference; eauto using alias_consistent_mergeable.
 Qed.
 
 (* a request with a response: data and errors are the reference's *)
 Lemma c26_eq_reference_response : forall s doc values w d vars root impls r log,
   execute_prepare s doc values = EpReady d vars root impls ->
-  sch_exec_wf s = true -> known_covariant s d = false -> rd_mergeable s d -> rd_acyclic d = true ->
+  sch_exec_wf s = true -> rd_mergeable s d -> rd_acyclic d = true ->
   execute_request s doc values w = (EoResponse r, log) ->
   ref_execute s doc values w = EoResponse r.
 Proof.
-  intros s doc values w d vars root impls r log Hp Hwf Hcov Hmg Hacyc H.
-  pose proof (c26_eq_reference s doc values w d vars root impls Hp Hwf Hcov Hmg Hacyc) as He. rewrite H in He. now cbn [fst] in He.
+  intros s doc values w d vars root impls r log Hp Hwf Hmg Hacyc H.
+  pose proof (c26_eq_reference s doc values w d vars root impls Hp Hwf Hmg Hacyc) as He. rewrite H in He. now cbn [fst] in He.
 Qed.
 
 (* data = null exactly when, in the reference's result tree, a field error sits below non-null positions only *)
 Lemma c26_data_null_iff : forall s doc values w d vars root impls r log,
   execute_prepare s doc values = EpReady d vars root impls ->
-  sch_exec_wf s = true -> known_covariant s d = false -> rd_mergeable s d -> rd_acyclic d = true ->
+  sch_exec_wf s = true -> rd_mergeable s d -> rd_acyclic d = true ->
   execute_request s doc values w = (EoResponse r, log) ->
   (er_data r = None <-> rt_fields_propagate (ref_root_fields s d vars root w) = true).
 Proof.
-  intros s doc values w d vars root impls r log Hp Hwf Hcov Hmg Hacyc H.
-  pose proof (c26_eq_reference_response _ _ _ _ _ _ _ _ _ _ Hp Hwf Hcov Hmg Hacyc H) as Hr.
+  intros s doc values w d vars root impls r log Hp Hwf Hmg Hacyc H.
+  pose proof (c26_eq_reference_response _ _ _ _ _ _ _ _ _ _ Hp Hwf Hmg Hacyc H) as Hr.
   unfold ref_execute in Hr. rewrite Hp in Hr.
   destruct (ref_execute_prepared s d vars root w) as [r'|] eqn:E; [|discriminate]. injection Hr as ->.
   now apply ref_data_null_iff.
@@ -140,13 +142,13 @@ Qed.
 Lemma c26_hyps_nonvacuous :
   exists d vars root impls,
     execute_prepare x_nv_schema x_nv_doc [] = EpReady d vars root impls /\
-    sch_exec_wf x_nv_schema = true /\ known_covariant x_nv_schema d = false /\ rd_alias_consistent d = true /\
+    sch_exec_wf x_nv_schema = true /\ rd_alias_consistent d = true /\
     rd_acyclic d = true /\ rd_mergeable x_nv_schema d /\
     rt_fields_propagate (ref_root_fields x_nv_schema d vars root x_nv_world) = false.
 Proof.
   destruct (execute_prepare x_nv_schema x_nv_doc []) as [d vars root impls|o] eqn:E; [|vm_compute in E; discriminate].
   exists d, vars, root, impls. vm_compute in E. injection E as <- <- <- <-.
-  split; [reflexivity|]. split; [vm_compute; reflexivity|]. split; [vm_compute; reflexivity|].
+  split; [reflexivity|]. split; [vm_compute; reflexivity|].
   split; [vm_compute; reflexivity|]. split; [vm_compute; reflexivity|]. split.
   - apply alias_consistent_mergeable; vm_compute; reflexivity.
   - vm_compute. reflexivity.
@@ -156,9 +158,11 @@ From Coq Require Import String.
 Local Open Scope string_scope.
 Local Open Scope list_scope.
 
-(* rd_mergeable is needed: type Query { a: A  b: B }  type A { j: Int  k: Int }  type B { k: String },
+(* rd_mergeable is a hypothesis of the proof (the typing invariant of merged sub-selections), but no longer known to be
+   necessary: type Query { a: A  b: B }  type A { j: Int  k: Int }  type B { k: String },
    `{ x: a { j }  x: b { k } }` (not a valid document: the two fields of response key x do not merge) and an A whose k
-   resolves to "s": the executor completes k with the type of B.k, the reference with the type of A.k *)
+   resolves to "s".  Before the repair of execute_field the executor completed k with the type of B.k (the type the
+   selection `k` was written under) and differed from the reference; now both complete k with the type of A.k *)
 Definition x_mg_schema : schema :=
   {| sch_def := x_sdef; sch_dirdefs := [];
      sch_types := [x_scalar "Int"; x_scalar "String";
@@ -172,14 +176,13 @@ Definition x_mg_doc : document :=
 Definition x_mg_world : world :=
   [((0%N, xs "a"), BhObject 1%N (xs "A")); ((1%N, xs "j"), BhLeaf (JInt 1)); ((1%N, xs "k"), BhLeaf (JStr (xs "s")))].
 
-Lemma c26_mergeable_needed :
+Lemma c26_unmergeable_example :
   (exists d, td_build x_mg_schema x_mg_doc = Some d /\ sch_exec_wf x_mg_schema = true /\
-             known_covariant x_mg_schema d = false /\ rd_acyclic d = true /\ rd_alias_consistent d = false) /\
+             rd_acyclic d = true /\ rd_alias_consistent d = false) /\
   fst (execute_request x_mg_schema x_mg_doc [] x_mg_world) =
-    EoResponse {| er_data := Some [(xs "x", JObj [(xs "j", JInt 1); (xs "k", JStr (xs "s"))])]; er_errors := [] |} /\
-  ref_execute x_mg_schema x_mg_doc [] x_mg_world =
     EoResponse {| er_data := Some [(xs "x", JObj [(xs "j", JInt 1); (xs "k", JNull)])];
-                  er_errors := [{| ge_class := EcLeaf; ge_path := [PsKey (xs "x"); PsKey (xs "k")] |}] |}.
+                  er_errors := [{| ge_class := EcLeaf; ge_path := [PsKey (xs "x"); PsKey (xs "k")] |}] |} /\
+  ref_execute x_mg_schema x_mg_doc [] x_mg_world = fst (execute_request x_mg_schema x_mg_doc [] x_mg_world).
 Proof.
   split; [|split].
   - eexists. repeat split; vm_compute; reflexivity.
